@@ -31,7 +31,10 @@ def beta(orb, ref="Sun"):
     w = np.asarray(np.cross(p, v))
     ref_pos = np.asarray(ref.propagate(orb.date).copy(frame=orb.frame)[:3])
 
-    return np.arcsin(w @ ref_pos / (np.linalg.norm(w) * np.linalg.norm(ref_pos)))
+    # rounding can push the sine slightly outside [-1, 1] when the body
+    # is on the normal of the orbit plane
+    sin_beta = w @ ref_pos / (np.linalg.norm(w) * np.linalg.norm(ref_pos))
+    return np.arcsin(np.clip(sin_beta, -1, 1))
 
 
 def beta_limit(orb):
